@@ -12,7 +12,7 @@ COMMON = "-std=gnu++17 -w -D%s -I%s/src -I%s/src/place_global -I%s/src/place_det
 VARIANTS = {
     # default monitor build: ASan + UBSan (incl. float->int overflow), library assertions ON
     "asan": "-O1 -g -fno-omit-frame-pointer -fsanitize=address,undefined,float-cast-overflow "
-            "-fno-sanitize-recover=all",
+            "-fno-sanitize-recover=all -D_GLIBCXX_ASSERTIONS",
     # volume build: the oracle (and the library's own asserts) are the monitors
     "fast": "-O2 -g",
     # what the pinned build ships: assertions compiled out, sanitizers still watching
